@@ -370,8 +370,9 @@ class Lexer(object):
                 # if we encounter a FOR, IF, WHILE, then whatever in
                 # the parentheses are marked.  Otherwise just push
                 # into the inner marker list.
-                if (self.prev_token and
-                        self.prev_token.type in IMPLIED_BLOCK_IDENTIFIER):
+                if (self.valid_prev_token and
+                        self.valid_prev_token.type in
+                        IMPLIED_BLOCK_IDENTIFIER):
                     self.token_stack.append([self.cur_token, []])
                 else:
                     self.token_stack[-1][1].append(self.cur_token)
